@@ -246,6 +246,32 @@ def build(tier="quick", seed=0):
                         lambda p: (p.value[0] == ["/abs/evidence#1.records.gz"] and bool(p.value[1]) and isinstance(p.value[1][0], MagicSeg) and p.value[1][0].codec == "gzip" and p.value[2] == [5], f"files written {p.value[0]}, leading segment {p.value[1]!r}, read back {p.value[2]!r}")),
                         replay=lambda w: {"call": "c11_hash_name", "args": {}}, functions=FU, mode="representative name"))
 
+    # a RAW stream under the record stream reader (what open_path() hands out for .zst: the bare zstd reader; a pipe): read(n) may return fewer bytes than asked
+    # for although more follow - at the member boundaries of a multi-frame file - and only an empty read is the end. Every record is read whatever the boundaries are.
+    for cut_name, cut_at in (("inside a length prefix", 2), ("inside a frame body", 9), ("between two frames", 0), ("inside the header", -14)):
+        name = f"C11.raw[the underlying stream returns short reads, boundary {cut_name}]"
+
+        def th_raw(cut_at=cut_at):
+            import struct as _struct
+
+            D = it.call(RD, ["c11/rec", [("varint", "n")]], {})
+            fp = AbsFile(it, mode="wb")
+            w = it.call(st.g["RecordStreamWriter"], [fp], {})
+            for k in (5, 6, 7):
+                it.call(it.getattr_(w, "write"), [it.call(D, [], {"n": k})], {})
+            segs = fp.content()
+            data = b"".join(s_ if isinstance(s_, bytes) else s_.concrete for s_ in segs)
+            first_record = len(b"".join(s_ if isinstance(s_, bytes) else s_.concrete for s_ in segs[:4]))  # header (2 writes) + descriptor frame (2 writes)
+            cut = (19 + cut_at) if cut_at < 0 else first_record + cut_at
+            raw = AbsFile(it, [data[:cut], data[cut:]])
+            raw.short_reads = True
+            rd = it.call(st.g["RecordStreamReader"], [raw], {})
+            out, end = drain(it, it.iterate(rd))
+            return [it.unbase(o.attrs["n"]) for o in out], end if isinstance(end, str) else end[:2]
+
+        pack.add(Obligation(name, lambda tier, name=name, th_raw=th_raw: prove_paths(name, th_raw, lambda p: (p.value == ([5, 6, 7], "stop"), f"records read from a stream that hands out short reads: {p.value[0]}, ended {p.value[1]}; written 5, 6, 7")),
+                            replay=lambda w, cut_name=cut_name: {"call": "c11_multiframe_zstd", "args": {}}, functions=FU + ("flow.record.stream:RecordStreamReader.read",), mode="concrete stream, member boundary at four kinds of position"))
+
     # '#' and ';' in front of a container extension: the container of a path follows its EXTENSION (what is written into <name>.avro is an Avro container,
     # what is read from it is read as one), whatever other characters the name holds
     for fname in ("evidence#1.avro", "exhibit;2.avro", "a#b;c.json", "plain.avro"):
